@@ -68,7 +68,7 @@ Proof. vm_compute. auto. Qed.
 
 (* recovery: a failed download, then the endpoint recovers and serves a rotated key *)
 Example spec_recovery_nonvacuous :
-  let sc := Script false [MArrive xtA; MRelease (Http true BadDoc); MArrive xtB; MRelease xgood2; MArrive xtB] in
+  let sc := Script false [MArrive xtA; MRelease (Http true (BadDoc BadTruncated)); MArrive xtB; MRelease xgood2; MArrive xtB] in
   spec sc (model sc) = true /\
   (* the stale error of the earlier download handed to the later call: rejected *)
   spec sc (OScript [mkSnap 1 false [SPending] [] true; mkSnap 1 true [SErr EFetch] [] true;
@@ -79,13 +79,14 @@ Proof. vm_compute. auto. Qed.
 
 (* one kid, two key types (RFC 7517 4.5), the non-fitting type listed first: the served signer verifies *)
 Example spec_same_kid_two_types_nonvacuous :
-  let body := Http true (Doc [Some (mkJwk "a" KRsa "sig" 9); Some xkA; Some (mkJwk "" KOkp "sig" 7)]) in
+  let c := [mkJwk "a" KRsa "sig" 9; xkA; mkJwk "" KOkp "sig" 7] in
+  let body := Http true (Doc (map Some c)) in
   let sc := Script false [MArrive xtA; MRelease body; MArrive xtA] in
   spec sc (model sc) = true /\
-  model sc = OScript [mkSnap 1 false [SPending] [] true; mkSnap 1 true [SOk] [9; 1; 7] true;
-                      mkSnap 1 false [SOk; SOk] [9; 1; 7] true] /\
-  spec sc (OScript [mkSnap 1 false [SPending] [] true; mkSnap 1 true [SErr ESig] [9; 1; 7] true;
-                    mkSnap 1 false [SErr ESig; SErr ESig] [9; 1; 7] true]) = false.
+  model sc = OScript [mkSnap 1 false [SPending] [] true; mkSnap 1 true [SOk] c true;
+                      mkSnap 1 false [SOk; SOk] c true] /\
+  spec sc (OScript [mkSnap 1 false [SPending] [] true; mkSnap 1 true [SErr ESig] c true;
+                    mkSnap 1 false [SErr ESig; SErr ESig] c true]) = false.
 Proof. vm_compute. auto. Qed.
 
 (* keys published WITHOUT kid, tokens WITH kid, then a rotation: the new key's token refreshes and
@@ -97,12 +98,12 @@ Example spec_kidless_rotation_nonvacuous :
   let sc := Script false [MRotate [kO]; MArrive tO; MRelease (Http true (Doc [Some kO])); MRotate [kN];
                           MArrive tN; MArrive tO; MRelease (Http true (Doc [Some kN]))] in
   spec sc (model sc) = true /\
-  model sc = OScript [mkSnap 0 false [] [] true; mkSnap 1 false [SPending] [] true; mkSnap 1 true [SOk] [1] true;
-                      mkSnap 1 false [SOk] [1] true; mkSnap 2 false [SOk; SPending] [1] true;
-                      mkSnap 2 false [SOk; SPending; SOk] [1] true; mkSnap 2 true [SOk; SOk; SOk] [3] true] /\
-  spec sc (OScript [mkSnap 0 false [] [] true; mkSnap 1 false [SPending] [] true; mkSnap 1 true [SOk] [1] true;
-                    mkSnap 1 false [SOk] [1] true; mkSnap 1 false [SOk; SErr ESig] [1] true;
-                    mkSnap 1 false [SOk; SErr ESig; SOk] [1] true; mkSnap 1 false [SOk; SErr ESig; SOk] [1] true]) = false.
+  model sc = OScript [mkSnap 0 false [] [] true; mkSnap 1 false [SPending] [] true; mkSnap 1 true [SOk] [kO] true;
+                      mkSnap 1 false [SOk] [kO] true; mkSnap 2 false [SOk; SPending] [kO] true;
+                      mkSnap 2 false [SOk; SPending; SOk] [kO] true; mkSnap 2 true [SOk; SOk; SOk] [kN] true] /\
+  spec sc (OScript [mkSnap 0 false [] [] true; mkSnap 1 false [SPending] [] true; mkSnap 1 true [SOk] [kO] true;
+                    mkSnap 1 false [SOk] [kO] true; mkSnap 1 false [SOk; SErr ESig] [kO] true;
+                    mkSnap 1 false [SOk; SErr ESig; SOk] [kO] true; mkSnap 1 false [SOk; SErr ESig; SOk] [kO] true]) = false.
 Proof. vm_compute. auto. Qed.
 
 (* and rejects what the unrepaired code did (F13): B fails when A is cancelled *)
@@ -111,3 +112,61 @@ Example spec_rejects_F13 :
        (OScript [mkSnap 1 false [SPending] [] true; mkSnap 1 false [SPending; SPending] [] true;
                  mkSnap 1 false [SErr ECtx; SErr EFetch] [] true; mkSnap 1 false [SErr ECtx; SErr EFetch] [] true]) = false.
 Proof. vm_compute. reflexivity. Qed.
+
+(* a JWKS outage after a warm cache: the refresh an unknown kid triggers is answered 200 with an
+   EMPTY body (then blank, null, {} ... - all BadDoc), the endpoint then fails with 5xx: the
+   cached key keeps verifying without a download.  Taking the empty body for a download of zero
+   keys (cache emptied, the cached key's token sent to the endpoint that is down) is rejected,
+   whether the verif hook or only the callers' answers show it. *)
+Example spec_outage_nonvacuous :
+  let tU := mkTok "zz" "ES256" 5 in
+  let sc := Script false [MRotate [xkA]; MArrive xtA; MRelease xgood1; MArrive tU;
+                          MRelease (Http true (BadDoc BadEmpty)); MArrive xtA; MArrive tU;
+                          MRelease (Http false (BadDoc BadNoKeys)); MArrive xtA] in
+  spec sc (model sc) = true /\
+  model sc = OScript [mkSnap 0 false [] [] true; mkSnap 1 false [SPending] [] true; mkSnap 1 true [SOk] [xkA] true;
+                      mkSnap 2 false [SOk; SPending] [xkA] true; mkSnap 2 true [SOk; SErr EFetch] [xkA] true;
+                      mkSnap 2 false [SOk; SErr EFetch; SOk] [xkA] true;
+                      mkSnap 3 false [SOk; SErr EFetch; SOk; SPending] [xkA] true;
+                      mkSnap 3 true [SOk; SErr EFetch; SOk; SErr EFetch] [xkA] true;
+                      mkSnap 3 false [SOk; SErr EFetch; SOk; SErr EFetch; SOk] [xkA] true] /\
+  (* the hook shows the emptied cache *)
+  spec sc (OScript [mkSnap 0 false [] [] true; mkSnap 1 false [SPending] [] true; mkSnap 1 true [SOk] [xkA] true;
+                    mkSnap 2 false [SOk; SPending] [xkA] true; mkSnap 2 true [SOk; SErr ENoKey] [] true]) = false /\
+  (* without looking at the cache: the cached key's token has to wait for a download *)
+  spec sc (OScript [mkSnap 0 false [] [] true; mkSnap 1 false [SPending] [] true; mkSnap 1 true [SOk] [xkA] true;
+                    mkSnap 2 false [SOk; SPending] [xkA] true; mkSnap 2 true [SOk; SErr ENoKey] [xkA] true;
+                    mkSnap 3 false [SOk; SErr ENoKey; SPending] [xkA] true;
+                    mkSnap 3 false [SOk; SErr ENoKey; SPending; SPending] [xkA] true;
+                    mkSnap 3 true [SOk; SErr ENoKey; SErr EFetch; SErr EFetch] [xkA] true;
+                    mkSnap 4 false [SOk; SErr ENoKey; SErr EFetch; SErr EFetch; SPending] [xkA] true]) = false.
+Proof. vm_compute. auto. Qed.
+
+(* key ids are compared byte for byte: a kid that differs from a published one by case only is
+   an unknown kid - one refresh, then rejected; accepting it is refused by the predicate although
+   the signer's key is served; and when both spellings are published each token gets its own key *)
+Example spec_near_kid_nonvacuous :
+  let kU := mkJwk "A" KEc "sig" 4 in
+  let tNear := mkTok "A" "ES256" 1 in      (* signed by the key published as "a" *)
+  let sc := Script false [MRotate [xkA]; MArrive xtA; MRelease xgood1; MArrive tNear; MRelease xgood1] in
+  let sc2 := Script false [MRotate [xkA; kU]; MArrive (mkTok "A" "ES256" 4);
+                           MRelease (Http true (Doc [Some xkA; Some kU])); MArrive xtA] in
+  spec sc (model sc) = true /\
+  model sc = OScript [mkSnap 0 false [] [] true; mkSnap 1 false [SPending] [] true; mkSnap 1 true [SOk] [xkA] true;
+                      mkSnap 2 false [SOk; SPending] [xkA] true; mkSnap 2 true [SOk; SErr ENoKey] [xkA] true] /\
+  spec sc (OScript [mkSnap 0 false [] [] true; mkSnap 1 false [SPending] [] true; mkSnap 1 true [SOk] [xkA] true;
+                    mkSnap 1 false [SOk; SOk] [xkA] true; mkSnap 1 false [SOk; SOk] [xkA] true]) = false /\
+  spec sc (OScript [mkSnap 0 false [] [] true; mkSnap 1 false [SPending] [] true; mkSnap 1 true [SOk] [xkA] true;
+                    mkSnap 2 false [SOk; SPending] [xkA] true; mkSnap 2 true [SOk; SOk] [xkA] true]) = false /\
+  spec sc2 (model sc2) = true /\
+  spec sc2 (OScript [mkSnap 0 false [] [] true; mkSnap 1 false [SPending] [] true;
+                     mkSnap 1 true [SErr ESig] [xkA; kU] true; mkSnap 1 false [SErr ESig; SOk] [xkA; kU] true]) = false.
+Proof. vm_compute. auto 10. Qed.
+
+(* a verification that rewrites an entry of the cached list (here: its kid) is seen *)
+Example spec_cache_entry_rewritten_nonvacuous :
+  let sc := Script false [MRotate [xkA]; MArrive xtA; MRelease xgood1; MArrive xtA] in
+  spec sc (model sc) = true /\
+  spec sc (OScript [mkSnap 0 false [] [] true; mkSnap 1 false [SPending] [] true; mkSnap 1 true [SOk] [xkA] true;
+                    mkSnap 1 false [SOk; SOk] [mkJwk "A" KEc "sig" 1] true]) = false.
+Proof. vm_compute. auto. Qed.
